@@ -1,2 +1,84 @@
-/- Oracle for C09 (stub: replaced when the property's model is built). -/
-def main : IO Unit := pure ()
+/-
+  Oracle for C09: reads the case list printed by `h-c09 gen` (C lines), runs every case whose
+  programs are inside the modelled ISA on BMV.SchedSim — with the `Globals` domain regenerated from
+  the Go source (genDom) — and prints
+    CFG globals=<Type.field,...> addp=<0|1> multp=<0|1>
+    X <id> model=<0|1> free=<0|1> dep=<0|1>
+       model: the case is inside the modelled ISA (no bonds, known opcodes)
+       free:  no core uses an opcode whose phase lives in Globals  (⇒ step_sched_indep / sim_isolation apply)
+       dep:   the model itself yields different traces for ascending / descending schedules or for
+              Globals left dirty by another simulation (a witness of globals_break_it on this case)
+    T <id> <tick> pc.r0.r1.r2.r3.o0|...      the model's trace (ascending schedule, clean Globals)
+-/
+import BMV.SchedSimGen
+import BMV.Lines
+open BMV.SchedSim BMV.Lines
+
+def parseReg (s : String) : Option Nat :=
+  if s.startsWith "r" then (s.drop 1).toString.toNat? else none
+
+def parseOp (ws : List String) : Option Op :=
+  match ws with
+  | ["rset", r, v] => do let r ← parseReg r; let v ← v.toNat?; pure (.rset r v)
+  | ["inc", r] => do let r ← parseReg r; pure (.inc r)
+  | ["add", r, s] => do let r ← parseReg r; let s ← parseReg s; pure (.add r s)
+  | ["addp", r, s] => do let r ← parseReg r; let s ← parseReg s; pure (.addp r s)
+  | ["multp", r, s] => do let r ← parseReg r; let s ← parseReg s; pure (.multp r s)
+  | ["nop"] => some .nop
+  | ["j", a] => do let a ← a.toNat?; pure (.j a)
+  | ["r2o", r, "o0"] => do let r ← parseReg r; pure (.r2o r)
+  | _ => none
+
+def parseProg (s : String) : Option (List Op) :=
+  (s.splitOn ",").filter (· ≠ "") |>.mapM fun i => parseOp ((i.splitOn "_").filter (· ≠ ""))
+
+def digest (n : Nat) (st : BmState) : String :=
+  "|".intercalate ((List.range n).map fun i =>
+    let c := st.cells i
+    s!"{lget c 0}.{lget c 4}.{lget c 5}.{lget c 6}.{lget c 7}.{lget c 1}")
+
+/-- trace of T ticks under one schedule from given Globals -/
+def traceOf (dom : Dom) (mod : Nat) (progs : List (List Op)) (σ : Schedule) (g : Globals) (T : Nat) :
+    List String :=
+  let m := isaMachine dom mod progs
+  let rec go (t : Nat) (g : Globals) (st : BmState) (acc : List String) : List String :=
+    match t with
+    | 0 => acc.reverse
+    | t + 1 =>
+      let r := stepSched m σ g st
+      go t r.1 r.2 (digest progs.length r.2 :: acc)
+  go T g isaInit []
+
+def b2s (b : Bool) : String := if b then "1" else "0"
+
+def handle (_ : Unit) (line : String) : Unit × List String :=
+  let fs := fields line
+  match fs with
+  | "C" :: rest =>
+    let id := (kv rest "id").getD "?"
+    let ring := (kv rest "ring").getD "0"
+    let rsize := nat! ((kv rest "rsize").getD "8")
+    let ticks := nat! ((kv rest "ticks").getD "1")
+    let progsS := ((kv rest "progs").getD "").splitOn "/"
+    match progsS.mapM parseProg with
+    | some progs =>
+      if ring != "0" then ((), [s!"X {id} model=0 free=0 dep=0"]) else
+      let mod := 2 ^ rsize
+      let n := progs.length
+      let asc := List.range n
+      let desc := asc.reverse
+      let free := !(progs.any (usesPipelined genDom))
+      let t1 := traceOf genDom mod progs asc gInit ticks
+      let t2 := traceOf genDom mod progs desc gInit ticks
+      let t3 := traceOf genDom mod progs asc [1, 1] ticks
+      let dep := t1 != t2 || t1 != t3
+      let tl := ((List.range t1.length).zip t1).map fun (t, d) => s!"T {id} {t} {d}"
+      ((), s!"X {id} model=1 free={b2s free} dep={b2s dep}" :: tl)
+    | none => ((), [s!"X {id} model=0 free=0 dep=0"])
+  | _ => ((), [])
+
+def main : IO Unit := do
+  let gl := ",".intercalate (genGlobals.map fun (t, f) => s!"{t}.{f}")
+  IO.println s!"CFG globals={gl} addp={b2s genDom.addp} multp={b2s genDom.multp}"
+  let _ ← foldStdin () handle
+  pure ()
